@@ -28,6 +28,8 @@ static char root[1024];
 static char outbuf[1 << 16], logprinted[1 << 16];
 static int outlen = 0, lplen = 0;
 static int real_mode = 0, export_only = 0;
+static int dir_b = 0; /* the command runs in the second directory ("work2"): another module, in which
+                       * odd-numbered packages do not exist and the others are a different build ("+B") */
 
 /* real export data for a build identity: taken from the store shared by all workers of a
  * check, or compiled now */
@@ -73,7 +75,8 @@ static void state_id(int i, char *dst, size_t n) {
         k += snprintf(dst + k, n - k, "%s%s@%d", first ? "" : ",", P[d].name, P[d].ver);
         first = 0;
     }
-    snprintf(dst + k, n - k, "]");
+    k += snprintf(dst + k, n - k, "]");
+    if (dir_b) snprintf(dst + k, n - k, "+B");
 }
 
 static void file_of(const char *state, char *dst, size_t n) {
@@ -118,6 +121,13 @@ int main(int argc, char **argv) {
     if (!r) { fprintf(stderr, "stubgo: VERIF_STUB_DIR not set\n"); return 3; }
     snprintf(root, sizeof root, "%s", r);
     char path[1200];
+    {
+        char cwd[1024];
+        if (getcwd(cwd, sizeof cwd)) {
+            size_t l = strlen(cwd);
+            if (l >= 6 && strcmp(cwd + l - 6, "/work2") == 0) dir_b = 1;
+        }
+    }
     snprintf(path, sizeof path, "%s/stub.count", root);
     struct stat sb; long n = 0;
     if (stat(path, &sb) == 0) n = (long)sb.st_size;
@@ -152,6 +162,7 @@ int main(int argc, char **argv) {
         if (strcmp(argv[a], "list") == 0 || argv[a][0] == '-') continue;
         int i = -1;
         for (int j = 0; j < NP; j++) if (strcmp(P[j].name, argv[a]) == 0) i = j;
+        if (i >= 0 && dir_b && (i & 1)) i = -1; /* not part of the module in the second directory */
         if (i < 0) {
             snprintf(errbuf, sizeof errbuf, "package %s is not in std\n", argv[a]);
             errmsg = errbuf; exitc = 1; ok = 0;
@@ -184,7 +195,7 @@ int main(int argc, char **argv) {
     int fd = open(path, O_WRONLY | O_CREAT | O_APPEND, 0644);
     if (fd >= 0) {
         char lb[1 << 16];
-        int m = snprintf(lb, sizeof lb, "n=%ld\tfault=%s\tok=%d\tlenient=%d\texit=%d\tprinted=%s\targs=", n, fault, ok, lenient, exitc, logprinted);
+        int m = snprintf(lb, sizeof lb, "n=%ld\tfault=%s\tok=%d\tlenient=%d\texit=%d\tdir=%s\tprinted=%s\targs=", n, fault, ok, lenient, exitc, dir_b ? "B" : "A", logprinted);
         for (int a = 1; a < argc && m < (int)sizeof lb - 300; a++) {
             if (strncmp(argv[a], "-f=", 3) == 0) continue;
             m += snprintf(lb + m, sizeof lb - m, "%s%s", a > 1 ? " " : "", argv[a]);
